@@ -7,7 +7,9 @@ from gv import coq, env, gen
 IMPORTS = "From GV Require Import Base.Str Model.FixWs Model.Empty."
 
 BLANKS = ["", " ", "    ", "\t", " \t ", "\x0c", "\r", "\x0b", "\x1c", "\x1f", "  \r"]
-COMMENTS = ["#", "# -*- coding: utf-8 -*-", "    # indented", "\t#tab", "#!shebang", " \x0c# after a form feed", "## x #", "#\\", "\x1d #gs"]
+COMMENTS = ["#", "# -*- coding: utf-8 -*-", "    # indented", "\t#tab", "#!shebang", " \x0c# after a form feed", "## x #", "#\\", "\x1d #gs",
+            # characters at which str.splitlines (but not split("\n"), nor Python's tokenizer inside a comment) breaks a line
+            "# page one\x0cpage two", "# a\rb", "    # a\x0bb", "# a\x1cb", "# a\x1db \x1e c", "#\x0c", "# x\r"]
 CODE = ["x = 1", "    pass", "import os", "\"\"\"doc", "\"\"\"", "x = 1  # trailing", "\\", "_", "@dec", "class A:", "def f():", "é = 1",
         "'# not a comment'", ";", "    return x", ". #", "\x00", "\x7f", "a\tb", "-#"]
 NAMES = ["google/cloud/lib_v1/services/library/pagers.py", "google/cloud/lib_v1/__init__.py", "google/cloud/lib_v1/py.typed", "__init__.py",
@@ -40,7 +42,7 @@ def gen_case(r):
 FIXED = [{"fn": "a/pagers.py", "raw": ""}, {"fn": "a/pagers.py", "raw": "\n"}, {"fn": "a/pagers.py", "raw": "# -*- coding: utf-8 -*-\n# Copyright\n#\n\n\n"},
          {"fn": "a/__init__.py", "raw": ""}, {"fn": "a/py.typed", "raw": "# Marker file for PEP 561.\n"}, {"fn": "a/pagers.py", "raw": "   #c\n x"},
          {"fn": "a/pagers.py", "raw": "\"\"\"\n# inside a docstring\n\"\"\"\n"}, {"fn": "a/pagers.py", "raw": "#\n\n\n\n\n#\n\n\n\nclass A: pass\n"},
-         {"fn": "a/pagers.py", "raw": "\x0c\n# c\n"}, {"fn": "a/pagers.py", "raw": "# c\r\nx\r\n"}, {"fn": "a/my__init__.py", "raw": "# only a comment\n"}]
+         {"fn": "a/pagers.py", "raw": "\x0c\n# c\n"}, {"fn": "a/notes.py", "raw": "# Bar: page one\x0cpage two\n"}, {"fn": "a/notes.py", "raw": "# a\rb\n\n"}, {"fn": "a/pagers.py", "raw": "# c\r\nx\r\n"}, {"fn": "a/my__init__.py", "raw": "# only a comment\n"}]
 
 
 def py_has_statement(text):
@@ -79,7 +81,13 @@ def run_empty(ctx):
         # merely END like a marker (my__init__.py, xpy.typed) and statement-less non-Python files get no verdict here: the
         # property does not speak about them (the T2 comparison below still pins what the code does with them).
         base = c["fn"].rsplit("/", 1)[-1]
-        if base in ("__init__.py", "py.typed") or has:
+        import re as _re
+        lone_cr = _re.search(r"\r(?!\n)", c["raw"]) is not None and not has
+        if lone_cr:
+            # CPython's tokenizer ends a line (and a comment) at a lone carriage return, utils.empty does not: whether such a
+            # text "has a statement" is not settled by the property, so only the T2 comparison speaks about it
+            want = None
+        elif base in ("__init__.py", "py.typed") or has:
             want = True
         elif c["fn"].endswith(".py") and not marker:
             want = False
